@@ -8,6 +8,7 @@ import XotModel.Lemmas.FframeGeneralMove
 import XotModel.Lemmas.FframeGeneralMore
 import XotModel.Lemmas.FframeGeneralUnwrap
 import XotModel.Lemmas.FframeGeneralReplace
+import XotModel.Lemmas.FframeGeneralCwp
 
 namespace XotModel
 open HTree Spec PairAll
@@ -288,6 +289,9 @@ theorem frame_general {s : Store} {c : Forest.XCall} (inv : s.forest.Inv) (hw : 
       | _ => cases hf
     | newNode v => exact absurd rfl hs
     | setConsolidation b => exact absurd rfl hs
+    | cloneWithPrefixes n order =>
+      obtain ⟨t, hg⟩ := Forest.get_of_live (hla n (List.mem_singleton.2 rfl))
+      exact (getFrame_cloneWithPrefixes inv s.env hg order hl).frameAt hl
     | _ => cases hf
 
 /-- The parent of a child of `p` read off the child list of `p`. -/
